@@ -11,6 +11,7 @@ import PdfVerif.Lemmas.Xref
 import PdfVerif.Lemmas.XrefBytes
 import PdfVerif.Lemmas.XrefTable
 import PdfVerif.Lemmas.XrefScan
+import PdfVerif.Lemmas.XrefFind
 
 namespace PdfVerif.Props.C02
 
@@ -365,6 +366,79 @@ theorem C02_startxref_bufsize (b : Nat) (hb : 1 ≤ b) (data : Bytes) :
 example : (match findXref 3 ([115, 116, 97, 114, 116, 120, 114, 101, 102, 10, 55, 10, 37, 37, 69, 79, 70, 10] ++
     [120, 10] ++ [115, 116, 97, 114, 116, 120, 114, 101, 102, 13, 10, 49, 50, 51, 13, 10, 37, 37, 69, 79, 70, 13, 10])
     with | .ok n => n == 123 | .error _ => false) = true := by decide
+
+/-! ## Locating `startxref`: the backward scan finds the LAST one, for every tail layout -/
+
+/-- `find_xref` on ANY file whose end consists of well-formed lines — the keyword line `kw`, blank
+lines `middle`, the first non-blank line `num`, then any lines `after` none of which is the keyword —
+returns the number on `num` (or `PDFNoValidXRef` when it is not all digits), whatever precedes the
+keyword line (`pre`: older revisions with their own `startxref` lines included) and for every read
+buffer size. -/
+theorem C02_find_xref (b : Nat) (hb : 1 ≤ b) (pre : Bytes) (kw num : RLine) (middle after : List RLine)
+    (hk : kw.OK) (hn : num.OK) (hm : ∀ l ∈ middle, l.OK) (ha : ∀ l ∈ after, l.OK)
+    (hkw : strip kw.bytes = kwStartxref) (hmid : ∀ l ∈ middle, strip l.bytes = [])
+    (hnum1 : strip num.bytes ≠ []) (hnum2 : strip num.bytes ≠ kwStartxref)
+    (hafter : ∀ l ∈ after, strip l.bytes ≠ kwStartxref) :
+    findXref b (pre ++ rlinesBytes (kw :: middle ++ num :: after)) =
+      if isDigits (strip num.bytes) then .ok (decNat (strip num.bytes)) else .error .noValidXRef := by
+  unfold findXref
+  rw [C02_revreadlines_bufsize b hb]
+  exact findXref_layout_bytes pre kw num middle after hk hn hm ha hkw hmid hnum1 hnum2 hafter
+
+/-- No line of the file is the keyword: `PDFNoValidXRef("Unexpected EOF")` (the body scan follows). -/
+theorem C02_find_xref_none (b : Nat) (hb : 1 ≤ b) (data : Bytes)
+    (h : ∀ l ∈ revLines data, strip l ≠ kwStartxref) : findXref b data = .error .noValidXRef := by
+  unfold findXref
+  rw [C02_revreadlines_bufsize b hb]
+  exact findXrefLines_none _ _ h
+
+/-- The writer's tail in full generality: after any bytes `pre` ending in an EOL byte, the keyword,
+the offset written with `w` digits and `%%EOF`, each followed by any number of blanks, separated by
+one or more EOLs of the file's style and ended by any number (also zero) of EOLs:
+`find_xref` returns exactly the offset written. -/
+theorem C02_find_xref_tail (b : Nat) (hb : 1 ≤ b) (pre : Bytes) (e0 : UInt8) (he0 : isEol e0 = true)
+    (eol : LineEol) (s1 s2 s3 k1 k2 k3 w n : Nat) (hw : 0 < w) (hn : n < 10 ^ w) :
+    findXref b (pre ++ e0 :: renderTailG eol s1 s2 s3 k1 k2 k3 w n) = .ok n := by
+  unfold findXref
+  rw [C02_revreadlines_bufsize b hb]
+  unfold renderTailG
+  have hsp : ∀ k, ∀ x ∈ blanks k, x = 32 := by
+    intro k x hx
+    exact (List.mem_replicate.mp hx).2
+  have hdne : renderDec w n ≠ [] := by
+    intro h
+    have := length_renderDec w n
+    rw [h] at this
+    simp at this; omega
+  rw [findXref_tail_bytes pre e0 he0 (blanks s1) (blanks s2) (blanks s3) (eolRep eol (k1 + 1))
+    (eolRep eol (k2 + 1)) (eolRep eol k3) (renderDec w n) (hsp s1) (hsp s2) (hsp s3)
+    (eolRep_eol eol _) (eolRep_eol eol _) (eolRep_eol eol _) (eolRep_succ_ne eol k1) (eolRep_succ_ne eol k2)
+    hdne (renderDec_digits w n), decNat_renderDec w n hn]
+
+/-- The four tails of the harness writer (compared byte for byte with what it wrote: `q.tail`). -/
+theorem C02_find_xref_written (b : Nat) (hb : 1 ≤ b) (pre : Bytes) (e0 : UInt8) (he0 : isEol e0 = true)
+    (ts : TailStyle) (eol : LineEol) (w n : Nat) (hw : 0 < w) (hn : n < 10 ^ w) :
+    findXref b (pre ++ e0 :: renderTail ts eol w n) = .ok n := by
+  cases ts <;> exact C02_find_xref_tail b hb pre e0 he0 eol _ _ _ _ _ _ w n hw hn
+
+/-- Non-vacuity: an older revision's `startxref⏎7⏎%%EOF⏎` stands before; CR LF tail with blanks and
+a blank line; the offset 123 of the LAST keyword is returned. -/
+example : findXref 4 (([115, 116, 97, 114, 116, 120, 114, 101, 102, 10, 55, 10, 37, 37, 69, 79, 70] : Bytes) ++
+    10 :: renderTail .blank .crlf 3 123) = .ok 123 :=
+  C02_find_xref_written 4 (by omega) _ 10 (by decide) .blank .crlf 3 123 (by omega) (by omega)
+
+example : renderTail .spaces .cr 2 45 =
+    [115, 116, 97, 114, 116, 120, 114, 101, 102, 32, 13, 52, 53, 32, 32, 13, 37, 37, 69, 79, 70, 32, 13] := by decide
+
+/-- a number line that is not all digits → `PDFNoValidXRef` (hypotheses of `C02_find_xref` satisfiable) -/
+example : findXref 2 ([37, 10] ++ rlinesBytes [⟨10, kwStartxref⟩, ⟨13, []⟩, ⟨10, [49, 120]⟩, ⟨10, kwEOF⟩]) =
+    .error .noValidXRef := by
+  exact (C02_find_xref 2 (by omega) [37, 10] ⟨10, kwStartxref⟩ ⟨10, [49, 120]⟩ [⟨13, []⟩] [⟨10, kwEOF⟩]
+    (by decide) (by decide) (by decide) (by decide) (by decide) (by decide) (by decide) (by decide)
+    (by decide)).trans rfl
+
+example : findXref 3 [37, 80, 68, 70, 10, 120, 114, 101, 102, 10] = .error .noValidXRef :=
+  C02_find_xref_none 3 (by omega) _ (by decide)
 
 /-! ## Open finding: cross-reference data that parses but is wrong is never rebuilt -/
 
